@@ -76,6 +76,11 @@ def _plan(ctx):
             plan.append((fn, [bad], False))
             m, mi, mj = rnd.choice([t for t in targets if t[0] != n])
             plan.append((fn, [(m, mi, mj, rnd.choice(F.VALID[m])), bad], False))     # rejected as a whole
+        # F29: a temperature sum of 0 is out of range (alone and next to a valid entry); the smallest decimal above 0 is valid
+        st = rnd.randrange(1, ne + 1)
+        plan.append((fn, [("TSUM", st, 0, "0")], False))
+        plan.append((fn, [("TSUM", 1 + st % ne, 0, "0"), ("MAXAMAX", 0, 0, "30")], False))
+        plan.append((fn, [("TSUM", st, 0, "0.000000001")], True))
         for _ in range(12 if ctx.thorough else 4):                                  # several valid entries at once
             ts = rnd.sample(targets, rnd.randrange(2, 5)) + [("TSUM", rnd.randrange(1, ne + 1), 0)]
             ts = list(dict.fromkeys(ts))
@@ -224,10 +229,12 @@ def oracle(ctx, search):
                 for (n, i, j) in F.all_targets(*F.classic_dims(F.read_lines(os.path.join(par, fn)))) for t in F.VALID[n]] + \
                [p for p in plan if not p[2] or len(p[1]) > 1]
     projects, lines, pairs = {}, [], []
-    full = set(_files(ctx)[:6])
+    full = set(_files(ctx)[:3])
+    soak = bool(os.environ.get("VERIF_SOAK")) or search      # VERIF_SOAK=1: whole runs for every row (not a registered tier)
     for k, (fn, entries, valid) in enumerate(plan):
-        if ctx.thorough and not search and fn not in full and valid and len(entries) == 1 and k % 4:
-            continue                    # thorough: whole runs for every 4th single override of the remaining files
+        single = valid and len(entries) == 1
+        if ctx.thorough and not soak and fn not in full and single and k % 6:
+            continue                    # thorough: whole runs for every 6th single override of the files beyond the first three
         if fn not in projects:
             vs = []
             for (name, P, kind, pne) in _project_variants(env, rnd, par, fn, "ov%d" % len(projects)):
@@ -245,17 +252,22 @@ def oracle(ctx, search):
                                                   fn + ".yml": yaml.safe_dump(doc, sort_keys=False, allow_unicode=True).encode()})
         top = max([e[1] for e in entries] + [0])
         for (name, P, kind, pne, bi, byi) in vs:
-            if kind != "self" and not search:
+            if kind != "self" and not soak:
                 # next to another crop: everything that is invalid or a set, the stages only one of the two crops has, a sample of the rest
-                if valid and len(entries) == 1 and not (top > min(ne, pne)) and k % 4:
+                if single and not (top > min(ne, pne)) and k % 6:
                     continue
+            # the YAML crop file: every row that is invalid or a set, TSUM, and every 2nd of the other single overrides
+            with_yaml = soak or not single or entries[0][0] == "TSUM" or (k + (kind != "self")) % 2 == 0
             a = len(lines); lines.append(F.line_for(name, P, extra="CropFile=%s %s" % (fn, key)))
-            ya = len(lines); lines.append(F.line_for(name, P, extra="CropParameterFormat=yml CropFile=%s.yml %s" % (fn, key)))
+            ya = yb = None
+            if with_yaml:
+                ya = len(lines); lines.append(F.line_for(name, P, extra="CropParameterFormat=yml CropFile=%s.yml %s" % (fn, key)))
             if valid:
                 b_ = len(lines); lines.append(F.line_for(name, P, extra="parameter=%s" % pf))
-                yb = len(lines); lines.append(F.line_for(name, P, extra="CropParameterFormat=yml parameter=%s" % pf))
+                if with_yaml:
+                    yb = len(lines); lines.append(F.line_for(name, P, extra="CropParameterFormat=yml parameter=%s" % pf))
             else:
-                b_, yb = bi, byi
+                b_, yb = bi, (byi if with_yaml else None)
             pairs.append((fn + ":" + kind, key, "", valid, a, b_, ya, yb, bi))
     runs = F.run_lines(env, "C18", lines, timeout=1800)
     effective = both_failed = 0
@@ -266,6 +278,8 @@ def oracle(ctx, search):
                     fails.append(Fail(key="baseline-run-failed:%s:%s" % (fn, kind), what="the run without override fails: %s" % runs[x].err, line=runs[x].line))
     for fn, key, text, valid, a, b_, ya, yb, base_i in pairs:
         for x, y, w in ((a, b_, "classic"), (ya, yb, "yaml")):
+            if x is None or y is None:
+                continue
             rx, ry = runs[x], runs[y]
             if rx.err and ry.err:
                 both_failed += 1          # e.g. a value the model itself cannot run with: same failure on both paths
@@ -281,7 +295,7 @@ def oracle(ctx, search):
         if valid and not F.same(runs[a], runs[base_i]):
             effective += 1
     ctx.extra["paired_runs"] = len(lines)
-    ctx.extra["pairs"] = 2 * len(pairs)
+    ctx.extra["pairs"] = sum(1 for p_ in pairs for q in ((p_[4], p_[5]), (p_[6], p_[7])) if q[0] is not None and q[1] is not None)
     ctx.extra["valid_overrides_that_change_the_results"] = effective
     ctx.extra["pairs_where_both_runs_fail_alike"] = both_failed
     ctx.extra["run_wall_s"] = round(env.run_wall, 1)
